@@ -155,6 +155,16 @@ def check(pid, tier, seed):
     single.append({"name": "merge-null", "call": "read", "init": "null", "ops": ("merge",), "script": twice(["newkf 1 x3d x23", "merge 3 1 2", "free 3", "free 1"])})
     single.append({"name": "free-null", "call": "free", "init": "null", "ops": ("none",), "script": twice(["freenull", "free 5"])})
     single.append({"name": "setconfdirs", "call": "free", "init": "null", "ops": ("none",), "script": twice(["setconfdirs %s %s" % (hx(".d"), hx("/x")), "setconfdirs"])})
+    # a file vanishes while the read is in flight: the callback for file j deletes file j+1 (already listed by scandir
+    # when it sits in the same directory). Whatever the library answers, nothing may leak or crash.
+    vr = ROOT + "/van"
+    for ent, rd in (("readdirscb", "readdirscb 1 %s %s %s %s x3d x23" % (hx(vr + "/usr/etc"), hx(vr + "/etc"), hx("cfg"), hx("conf"))),
+                    ("readhistcb", "readhistcb 1 %s %s %s %s x3d x23" % (hx(vr + "/usr/etc"), hx(vr + "/etc"), hx("cfg"), hx("conf")))):
+        for trig, victim in (("etc/cfg.conf", "usr/etc/cfg.conf.d/a.conf"), ("usr/etc/cfg.conf.d/a.conf", "usr/etc/cfg.conf.d/b.conf"),
+                             ("usr/etc/cfg.conf.d/b.conf", "etc/cfg.conf.d/a.conf"), ("usr/etc/cfg.conf.d/a.conf", "etc/cfg.conf")):
+            mk = ["rm %s" % hx(vr)] + ["file %s %s" % (hx(vr + "/" + f), hx("K=1\n")) for f in ("etc/cfg.conf", "usr/etc/cfg.conf.d/a.conf", "usr/etc/cfg.conf.d/b.conf", "etc/cfg.conf.d/a.conf")]
+            body_ = mk + ["cbreset", "cbdel %s %s" % (hx(vr + "/" + trig), hx(vr + "/" + victim)), rd] + ["free %d" % k for k in range(1, 7)] + ["cbreset"]
+            single.append({"name": "vanish:%s:%s->%s" % (ent, trig, victim), "call": "free", "init": "null", "ops": ("none",), "script": twice(body_)})
     nh = 150 if tier == "quick" else 3000
     for j in range(nh):
         h = p_keyfile.random_history(rnd, "lc-%d" % j, rnd.randint(5, 60))
@@ -183,7 +193,7 @@ def check(pid, tier, seed):
            "samples": lev[:2] + lev[-1:], "exhaustive": False, "model_states": mc.distinct, "traces_validated_against_impl": len(lev) - len(mism),
            "trusted_base": ["gcc ASan allocator accounting (__sanitizer_get_current_allocated_bytes)", "TLC 1.8.0", "drv.c", "valgrind memcheck (thorough)"]}
     core.write_evidence(pid, tier, seed, "fault_enumeration", cov,
-                        ["allocation failure (NOMEM) paths are not injected", "vanished / unreadable files are not injected yet"], time.time() - t0, len(verdict.violations))
+                        ["allocation failure (NOMEM) paths are not injected", "unreadable files (EACCES) cannot be produced as root"], time.time() - t0, len(verdict.violations))
     return rc
 
 
